@@ -615,7 +615,7 @@ def stochastic_round_po2(x):
   return x_po2
 
 
-def _round_through(x, use_stochastic_rounding=False, precision=0.5):
+def _round_through(x, use_stochastic_rounding=False, precision=1.0):
   """Rounds x but using straight through estimator.
 
   We use the trick from [Sergey Ioffe](http://stackoverflow.com/a/36480182).
@@ -634,8 +634,11 @@ def _round_through(x, use_stochastic_rounding=False, precision=0.5):
   Arguments:
     x: tensor to perform round operation with straight through gradient.
     use_stochastic_rounding: if true, we perform stochastic rounding.
-    precision: by default we will use 0.5 as precision, but that can overriden
-      by the user.
+    precision: granularity of the stochastic rounding. By default we round to
+      a nearby integer, like tf.round does in the deterministic case, so that
+      callers that turn the result into a code (quantized_relu, quantized_tanh,
+      quantized_sigmoid) only ever produce codes; it can be overriden by the
+      user.
 
   Returns:
     Rounded tensor.
